@@ -4,9 +4,11 @@
 //! projections (walk -> content, InMemoryZoneDiff -> diff) that are compared
 //! with the model.
 //!
-//! Record ids (Xfr.tla): a non-SOA record is `1 + 4*n + 2*t + v` with name
-//! index n, type index t in {0: A, 1: TXT}, value index v in {0, 1}; the SOA
-//! record with serial s is `100 + s`.
+//! Record ids (Xfr.tla): `base + 1000*tt`.  A non-SOA base is
+//! `1 + 4*n + 2*t + v` with name index n, type index t in {0: A, 1: TXT},
+//! value index v in {0, 1}; the SOA record with serial s has base `100 + s`;
+//! tt is the index of the record's TTL in `TTLS` (the TTL of the RRset the
+//! record belongs to; SOA records always carry index 0).
 #![allow(dead_code)]
 
 use bytes::Bytes;
@@ -31,6 +33,9 @@ use std::sync::{Arc, Mutex};
 
 pub const SOA_BASE: i64 = 100;
 pub const TTL: u32 = 3600;
+/// TTL index -> seconds
+pub const TTLS: [u32; 3] = [TTL, 7200, 300];
+pub const TT: i64 = 1000;
 pub const REQ_ID: u16 = 0x1234;
 
 pub type StoredData = ZoneRecordData<Bytes, StoredName>;
@@ -60,8 +65,20 @@ pub fn name_index(name: &StoredName, max_n: i64) -> Option<i64> {
     (0..=max_n).find(|n| &name_of(*n) == name)
 }
 
+pub fn base_of(id: i64) -> i64 {
+    id % TT
+}
+
+pub fn ttl_of(id: i64) -> Ttl {
+    Ttl::from_secs(TTLS[(id / TT) as usize % TTLS.len()])
+}
+
+pub fn ttl_index(ttl: Ttl) -> Option<i64> {
+    TTLS.iter().position(|t| *t == ttl.as_secs()).map(|i| i as i64)
+}
+
 pub fn is_soa_id(id: i64) -> bool {
-    id >= SOA_BASE
+    base_of(id) >= SOA_BASE
 }
 
 /// The model's serials are small version indexes; the real SOA serial is
@@ -99,6 +116,7 @@ pub fn soa_variant(serial: u32, variant: u32) -> Soa<StoredName> {
 }
 
 pub fn key_of(id: i64) -> (i64, i64) {
+    let id = base_of(id);
     ((id - 1) / 4, ((id - 1) / 2) % 2)
 }
 
@@ -121,6 +139,7 @@ pub fn owner_of(id: i64) -> StoredName {
 }
 
 pub fn data_of(id: i64) -> StoredData {
+    let id = base_of(id);
     if is_soa_id(id) {
         let k = (id - SOA_BASE) as u32;
         return ZoneRecordData::Soa(soa_variant(k % 100, k / 100));
@@ -135,7 +154,18 @@ pub fn data_of(id: i64) -> StoredData {
     }
 }
 
-/// Real record data -> record id (None for anything outside the universe).
+/// Real record -> record id including the TTL index (None for anything
+/// outside the universe, a TTL outside `TTLS`, or a SOA whose TTL is not TTL).
+pub fn rid_of(owner: &StoredName, data: &StoredData, ttl: Ttl, max_n: i64) -> Option<i64> {
+    let b = id_of(owner, data, max_n)?;
+    let tt = ttl_index(ttl)?;
+    if is_soa_id(b) && tt != 0 {
+        return None;
+    }
+    Some(b + TT * tt)
+}
+
+/// Real record data -> base id (None for anything outside the universe).
 pub fn id_of(owner: &StoredName, data: &StoredData, max_n: i64) -> Option<i64> {
     match data {
         ZoneRecordData::Soa(soa) => {
@@ -179,7 +209,8 @@ pub fn build_zone(serial: i64, recs: &[i64]) -> Zone {
         sets.entry(key_of(*id)).or_default().push(*id);
     }
     for (_k, ids) in sets {
-        let mut rr = Rrset::new(rtype_of(ids[0]), Ttl::from_secs(TTL));
+        // one TTL per RRset: the one the (first) record id carries
+        let mut rr = Rrset::new(rtype_of(ids[0]), ttl_of(ids[0]));
         for id in &ids {
             rr.push_data(data_of(*id));
         }
@@ -189,8 +220,9 @@ pub fn build_zone(serial: i64, recs: &[i64]) -> Zone {
 }
 
 /// Content visible to a *fresh* reader: `{"soa": [serials...], "recs":
-/// [ids...]}` as sorted multisets; records outside the universe are listed
-/// under "other".
+/// [ids...]}` as sorted multisets, every record id with the TTL index of the
+/// RRset walk() showed it in; records outside the universe (or with a TTL
+/// outside it) are listed under "other".
 pub fn walk_content(zone: &Zone, max_n: i64) -> Value {
     let acc: Arc<Mutex<(Vec<i64>, Vec<i64>, Vec<String>)>> =
         Arc::new(Mutex::new((vec![], vec![], vec![])));
@@ -198,10 +230,10 @@ pub fn walk_content(zone: &Zone, max_n: i64) -> Value {
     zone.read().walk(Box::new(move |owner, rrset, _cut| {
         let mut a = acc2.lock().unwrap();
         for d in rrset.data() {
-            match id_of(&owner, d, max_n) {
+            match rid_of(&owner, d, rrset.ttl(), max_n) {
                 Some(id) if is_soa_id(id) => a.0.push(id - SOA_BASE),
                 Some(id) => a.1.push(id),
-                None => a.2.push(format!("{} {} {}", owner, rrset.rtype(), d)),
+                None => a.2.push(format!("{} {} {} {}", owner, rrset.ttl().as_secs(), rrset.rtype(), d)),
             }
         }
     }));
@@ -217,16 +249,17 @@ pub fn walk_content(zone: &Zone, max_n: i64) -> Value {
 }
 
 /// `{"s": start, "e": end, "add": [ids], "rem": [ids]}`; SOA entries are
-/// reported through s/e and as ids >= 100 in add/rem.
+/// reported through s/e and as base ids >= 100 in add/rem; every id carries
+/// the TTL index of the diff entry (an RRset) it was found in.
 pub fn diff_json(d: &InMemoryZoneDiff, max_n: i64) -> Value {
     let side = |m: &std::collections::HashMap<(StoredName, Rtype), SharedRrset>| {
         let mut ids = vec![];
         let mut other = vec![];
         for ((owner, _rt), rrset) in m.iter() {
             for data in rrset.data() {
-                match id_of(owner, data, max_n) {
+                match rid_of(owner, data, rrset.ttl(), max_n) {
                     Some(id) => ids.push(id),
-                    None => other.push(format!("{} {}", owner, data)),
+                    None => other.push(format!("{} {} {}", owner, rrset.ttl().as_secs(), data)),
                 }
             }
         }
@@ -282,7 +315,7 @@ pub fn render(m: &Value) -> Message<Bytes> {
     let mut a = q.answer();
     for id in m["an"].as_array().cloned().unwrap_or_default() {
         let id = id.as_i64().unwrap();
-        a.push((owner_of(id), Class::IN, Ttl::from_secs(TTL), data_of(id)))
+        a.push((owner_of(id), Class::IN, ttl_of(id), data_of(id)))
             .unwrap();
     }
     let mut octets: Vec<u8> = a.finish().into_target();
@@ -305,7 +338,7 @@ pub fn parsed_id(rec: &ParsedRecord, max_n: i64) -> i64 {
     let owner: StoredName = rec.owner().to_name();
     let data: Result<StoredData, _> = rec.data().clone().try_flatten_into();
     match data {
-        Ok(d) => id_of(&owner, &d, max_n).unwrap_or(-1),
+        Ok(d) => rid_of(&owner, &d, rec.ttl(), max_n).unwrap_or(-1),
         Err(_) => -1,
     }
 }
